@@ -145,7 +145,7 @@ def r1_canonical(facts, rep):
             continue
         rep.ob("C02-R1", key, good, "stored power written via %s (%s): %s" % (src.split("::")[-1], kind, how), body.site(s["span"]),
                sample={"site": key, "how": how})
-    rep.floor("C02-R1", "stored-power update sites", len(sites), 6)
+    rep.floor("C02-R1", "stored-power update sites", len(sites), 4)
     # construction sites that filter zero powers
     fi = None
     for b in facts.lib_bodies():
